@@ -43,6 +43,13 @@ impl<F: FileFilter> DirectoryScanner<F> {
     fn scan_without_gitignore(&self, root: &Path) -> Vec<PathBuf> {
         WalkDir::new(root)
             .into_iter()
+            // The tool's own state files are not entries of the project (as in the structure scan)
+            .filter_entry(|e| {
+                let is_dir = e.file_type().is_dir();
+                e.depth() == 0
+                    || !(is_own_state_entry(e.file_name(), is_dir)
+                        || (is_dir && is_git_state_dir(e.path())))
+            })
             .filter_map(std::result::Result::ok)
             .filter(|e| e.file_type().is_file() && self.filter.should_include(e.path()))
             .map(walkdir::DirEntry::into_path)
@@ -59,6 +66,13 @@ impl<F: FileFilter> DirectoryScanner<F> {
             .require_git(false)
             .hidden(false)
             .parents(true)
+            // The tool's own state files are not entries of the project (as in the structure scan)
+            .filter_entry(|e| {
+                let is_dir = e.file_type().is_some_and(|ft| ft.is_dir());
+                e.depth() == 0
+                    || !(is_own_state_entry(e.file_name(), is_dir)
+                        || (is_dir && is_git_state_dir(e.path())))
+            })
             .build()
             .filter_map(std::result::Result::ok)
             .filter(|e| e.file_type().is_some_and(|ft| ft.is_file()))
